@@ -9,6 +9,7 @@ every successful `addEvent` gets a registration id (`registered`), kept by `resc
 -/
 import LimnoriaModel.C18.ArgsInv
 import LimnoriaModel.C18.PluginLemmas
+import LimnoriaModel.C18.Threads
 namespace C18
 open Py List
 
@@ -255,6 +256,63 @@ example : ∃ s' evs, runPicks exProg
   split at h
   · exact ⟨_, _, by assumption⟩
   · cases h
+
+/-! ## threads and the lock -/
+
+/-- **Where the lock is** (extracted from src/schedule.py on every run): every operation of
+`addEvent`, `removeEvent`, `rescheduleEvent`, `reset` and `run` on the heap, the `events` dict and
+the counter is inside `with self.lock:` and the event function is called outside it (first clause: locked iff
+not the call); and the
+operations the atoms of `Threads.lean` stand for are all there. -/
+theorem lock_placement_ok :
+    Gen.schedLock.all (fun r => (r.2.1 == ['c', 'a', 'l', 'l']) != r.2.2) = true ∧
+    Gen.schedLock.contains (['a', 'd', 'd', 'E', 'v', 'e', 'n', 't'], ['e', 'v', 'e', 'n', 't', 's', '.', 'c', 'o', 'n', 't', 'a', 'i', 'n', 's'], true) = true ∧
+    Gen.schedLock.contains (['a', 'd', 'd', 'E', 'v', 'e', 'n', 't'], ['e', 'v', 'e', 'n', 't', 's', '.', 's', 'e', 't'], true) = true ∧
+    Gen.schedLock.contains (['a', 'd', 'd', 'E', 'v', 'e', 'n', 't'], ['h', 'e', 'a', 'p', '.', 'h', 'e', 'a', 'p', 'p', 'u', 's', 'h'], true) = true ∧
+    Gen.schedLock.contains (['r', 'e', 'm', 'o', 'v', 'e', 'E', 'v', 'e', 'n', 't'], ['e', 'v', 'e', 'n', 't', 's', '.', 'p', 'o', 'p'], true) = true ∧
+    Gen.schedLock.contains (['r', 'e', 'm', 'o', 'v', 'e', 'E', 'v', 'e', 'n', 't'], ['h', 'e', 'a', 'p', '.', 'h', 'e', 'a', 'p', 'i', 'f', 'y'], true) = true ∧
+    Gen.schedLock.contains (['r', 'u', 'n'], ['h', 'e', 'a', 'p', '.', 'p', 'e', 'e', 'k'], true) = true ∧
+    Gen.schedLock.contains (['r', 'u', 'n'], ['h', 'e', 'a', 'p', '.', 'h', 'e', 'a', 'p', 'p', 'o', 'p'], true) = true ∧
+    Gen.schedLock.contains (['r', 'u', 'n'], ['e', 'v', 'e', 'n', 't', 's', '.', 'p', 'o', 'p'], true) = true ∧
+    Gen.schedLock.contains (['r', 'u', 'n'], ['c', 'a', 'l', 'l'], false) = true := by decide
+
+/-- **`run()` racing with other threads**: for every interleaving of critical sections
+(`addEvent`, `removeEvent`, iterations of `run()`, `reset`, by any number of threads, in the order
+the lock is granted) the name invariant holds at every lock release — every prefix of an
+interleaving is an interleaving —, `self.events.pop` inside `run()` never raises, and the books
+balance: registrations are pairwise distinct and each is fired, removed, discarded or still
+scheduled, exactly once; an iteration of `run()` tests "due" and pops in one critical section, so it
+never fires early.  (False before the repairs of the lock placement: `removeEvent` popped the dict
+before taking the lock, `addEvent` checked the name and `run` the due time before taking it.) -/
+theorem threads_safe (now : Nat) (as : List Atom) :
+    match arun (init now) as with
+    | .ok s' evs => NameInv s' ∧ (firedOf evs ++ removedOf evs ++ discOf evs ++ rids s'.sched).Nodup
+    | .crashed => False
+    | .disabled => True := by
+  have h := arun_good as (init now) (init_nameInv now)
+  cases he : arun (init now) as with
+  | disabled => trivial
+  | crashed => rw [he] at h; exact h
+  | ok s' evs =>
+    rw [he] at h
+    obtain ⟨h1, h2, h3⟩ := h
+    refine ⟨h1, ?_⟩
+    have hperm : (regOf evs).Perm (firedOf evs ++ removedOf evs ++ discOf evs ++ rids s'.sched) := by
+      rw [perm_iff_count]
+      intro x
+      have hc := h2 x
+      have hg := goneOf_count x evs
+      simp only [count_append, init, rids, map_nil, count_nil] at *
+      omega
+    have hnd : (regOf evs).Nodup := by rw [h3.2]; exact nodup_range'
+    exact hperm.nodup_iff.mp hnd
+
+-- a two-thread history: thread A removes "x" while thread B's run() pops it; whichever gets the lock
+-- first, nothing breaks
+example : (match arun (init 1000) [.add (.plain 0) 1005 (some (.str ['x'])) [], .tick 10, .pop (.str ['x']),
+      .remove (.str ['x'])] with
+    | .ok s' evs => decide (s'.sched = [] ∧ firedOf evs = [0])
+    | _ => false) = true := by decide
 
 /-! ## the Scheduler plugin on top of the schedule
 
